@@ -94,15 +94,31 @@ class C15(Prop):
         rows = self.rows()
         nv = {"quick": 3, "search": 6, "thorough": 60}[tier]
         yield "accessor-table", [("t0", ["-"])]
+        yield "accessor", self.corpus_cases(("observation",), False)
+        yield "accessor-any", self.corpus_cases(("observation",), True)
         yield "accessor", ga.pair_cases(rows, rng, nv)
         yield "accessor", ga.getter_only_cases(rows, rng, max(1, nv // 2))
         yield "accessor", ga.reading_cases(rows, rng, nv * 4)
+        yield "accessor", ga.vcs_cases(rows, rng, {"quick": 300, "search": 600, "thorough": 5000}[tier])
         yield "accessor", ga.sequence_cases(rows, rng, {"quick": 1500, "search": 4000, "thorough": 100000}[tier], 4 if tier != "thorough" else 6)
         yield "accessor-any", ga.malformed_cases(rows, rng, {"quick": 3000, "search": 8000, "thorough": 200000}[tier])
         yield "accessor-any", ga.wild_setter_cases(rows, rng, {"quick": 2000, "search": 6000, "thorough": 150000}[tier])
         yield "accessor-any", ga.pool_path_cases(rows)
         yield "accessor-any", ga.exhaustive_raw_cases(rows, {"quick": 3, "search": 3, "thorough": 4}[tier])
         yield "control-select", ga.control_cases(rng, {"quick": 1500, "search": 4000, "thorough": 100000}[tier], tier)
+
+    def corpus_cases(self, skip_prefixes, only_skipped):
+        """corpus/c15/*.json: the recorded failing inputs of the defects found (judged by the oracle) and the
+        recorded observations (correspondence only)"""
+        import glob, json, os
+        out = []
+        for f in sorted(glob.glob(os.path.join(core.VERIF, "corpus", "c15", "*.json"))):
+            name = os.path.basename(f)[:-5]
+            o = json.load(open(f))
+            if o.get("stream") != "accessor": continue
+            if name.startswith(skip_prefixes) != only_skipped: continue
+            out.append(("corpus-" + name, o["fields"]))
+        return out
 
     # ------------------------------------------------------------------ oracle
     def oracle(self, stream, fields, impl):
@@ -131,35 +147,41 @@ class C15(Prop):
         if ty == "copyright::LicenseParagraph": kind_idx = 2
         if kind_idx >= len(paras): return None
         items = list(paras[kind_idx][0])
-        # replay the ops on the list of items with the property's expectations
-        last_set = {}      # getter method -> expected value text
+        # replay the ops with the property's expectations.  The expectation is derived from the method
+        # NAMES (set_x then x) and the value alone, not from what the translator recognised, so a body the
+        # translator no longer understands is still judged.
+        last_set = {}      # getter method -> (field or None, setter method, value text)
         touched = set()
         reread_seen = False
-        for op, out in zip(cid_ops, outs):
+        names0 = [k for k, _ in items]
+        for idx_op, (op, out) in enumerate(zip(cid_ops, outs)):
             p = op.split("~")
             if p[0] == "S":
                 row = self._by.get((ty, p[1]))
                 if out != "ok": return f"setter {p[1]} did not run: {out}"
-                if row is None: continue
-                g = self._by.get((ty, p[1][4:])) if p[1].startswith("set_") else None
-                for f in row["fields"]: touched.add(f)
-                if not row["fields"]: touched.add("*")
-                if g is not None and g["op"] == "OGet" and row["op"] in ("OSet", "OSetOrRemove", "OInsert"):
-                    v = p[3]
-                    want = ("O" + v) if (wraps_option(g["codec"]) and not takes_option(row)) else v
-                    # other getters on the same field are invalidated
-                    for m, (fld, _) in list(last_set.items()):
-                        if fld == row["fields"][0]: del last_set[m]
-                    last_set[g["method"]] = (row["fields"][0], want)
+                flds = row["fields"] if row else []
+                for f in flds: touched.add(f)
+                if not flds: touched.add("*")
+                gm = p[1][4:] if p[1].startswith("set_") else None
+                if p[1] == "set_vendor_bug": gm = "vendor_bugs"
+                if p[1] == "set_upstream_bug": gm = "bugs"
+                # a later setter of the same field invalidates earlier expectations on that field
+                for m, (fld, _, _) in list(last_set.items()):
+                    if fld is None or fld in flds or not flds: del last_set[m]
+                if gm is not None and (ty, gm) in self._by:
+                    if p[1] == "set_long_description" and not ({"Description", "Subject"} & set(names0)): continue
+                    if p[1] in ("set_description", "set_long_description", "set_author") and self.both_alternatives(p[1], names0): continue
+                    last_set[gm] = (flds[0] if flds else None, p[1], p[3])
             elif p[0] == "G":
                 if p[1] in last_set:
-                    want = last_set[p[1]][1]
-                    if out != want:
-                        return f"{ty}::{p[1]}() after {'re-reading the printed text after ' if reread_seen else ''}set: got {out[:80]}, the value set was {want[:80]}"
+                    fld, sm, v = last_set[p[1]]
+                    if not self.acceptable(sm, out, v, names0):
+                        return (f"{ty}::{p[1]}() after {'re-reading the printed text after ' if reread_seen else ''}{sm}: "
+                                f"got {out[:80]}, the value set was {v[:80]}")
             elif p[0] == "E":
-                prev = outs[cid_ops.index(op) - 1]
+                prev = outs[idx_op - 1]
                 if prev != p[1]:
-                    return f"{ty}::{cid_ops[cid_ops.index(op) - 1].split('~')[1]}() on rendered raw text: got {prev[:80]}, documented reading {p[1][:80]}"
+                    return f"{ty}::{cid_ops[idx_op - 1].split('~')[1]}() on rendered raw text: got {prev[:80]}, documented reading {p[1][:80]}"
             elif p[0] == "R":
                 if out not in ("reread", "-"):
                     # a paragraph whose last field was cleared prints nothing: no paragraph to re-read
@@ -183,6 +205,22 @@ class C15(Prop):
             if comment_lines(unhex(r["text"])) != want:
                 return "a comment line changed"
         return None
+
+    @staticmethod
+    def both_alternatives(setter, names):
+        alt = {"set_author": ("Author", "From")}.get(setter, ("Description", "Subject"))
+        return alt[0] in names and alt[1] in names
+
+    @staticmethod
+    def acceptable(setter, out, v, names0):
+        """is `out` the getter's way of saying the value v that was set?"""
+        if setter == "set_vendor_bug":
+            return out == "L." + v[1:] or (sum(1 for n in names0 if n == "Bug-Debian") > 1 and ("." + v[1:]) in out)
+        if setter == "set_upstream_bug":
+            return ("s2d,n0,s" + v[1:]) in out
+        if out == v or out == "O" + v: return True
+        if v == "N" and out in ("N", "R", "L", "B0"): return True
+        return False
 
     def hand_touched(self, ty, ops, k):
         """fields a hand-modelled setter may touch"""
